@@ -102,21 +102,43 @@ def run_impl(stream, cases, env_extra=None, jobs=None, chunk=None):
 # --------------------------------------------------------------------------------------------------
 # running the Lean model
 
+_PRIVATE_DRIVER = {}
+
+
+def _snapshot_driver():
+    """Called under the build lock: keep a private copy of the freshly built driver for this run, so that a
+    concurrent check re-linking the driver (after regenerating its Gen tables) cannot pull it from under us."""
+    import atexit, shutil
+    if os.path.exists(DRIVER):
+        dst = DRIVER + ".%d" % os.getpid()
+        try:
+            shutil.copy2(DRIVER, dst)
+            _PRIVATE_DRIVER["path"] = dst
+            atexit.register(lambda: os.path.exists(dst) and os.remove(dst))
+        except OSError:
+            pass
+
+
 def run_model(lines, jobs=None):
     """lines: list of dicts (or None).  Returns list of parsed JSON outputs (None where skipped)."""
     idx = [i for i, l in enumerate(lines) if l is not None]
     outs = [None] * len(lines)
     if not idx:
         return outs
-    if not os.path.exists(DRIVER):
-        raise RuntimeError("Lean driver not built: " + DRIVER)
+    driver = _PRIVATE_DRIVER.get("path") or DRIVER
+    for _ in range(120):                      # another check may be re-linking the driver right now
+        if os.path.exists(driver):
+            break
+        time.sleep(1)
+    if not os.path.exists(driver):
+        raise RuntimeError("Lean driver not built: " + driver)
     jobs = jobs or NCPU
     per = max(1, (len(idx) + jobs - 1) // jobs)
     parts = [idx[i:i + per] for i in range(0, len(idx), per)]
 
     def one(part):
         inp = "".join(json.dumps(lines[i]) + "\n" for i in part)
-        p = subprocess.run([DRIVER], input=inp, capture_output=True, text=True, timeout=1800)
+        p = subprocess.run([driver], input=inp, capture_output=True, text=True, timeout=1800)
         got = [l for l in p.stdout.split("\n") if l.strip()]
         res = []
         for k, i in enumerate(part):
@@ -221,6 +243,8 @@ def lean_check(modules, theorems, clean=False, leanchecker=False, gen=None):
         st.log += p.stdout[-4000:] + p.stderr[-2000:]
         if p.returncode != 0:
             st.ok = False
+        if p.returncode == 0:
+            _snapshot_driver()
         st.audit_hits = source_audit()
         if st.audit_hits:
             st.ok = False
